@@ -34,7 +34,7 @@ Variable st0 : state.
 Hypothesis Hv0 : forall i v0, nth_error vs0 i = Some v0 -> v0_ok a wgp wvec v0.
 Hypothesis Hout0 : fout_inj vs0.
 
-Local Notation finv' := (finv wgp wvec vs0 st0).
+Local Notation finv' := (finv a wgp wvec vs0 st0).
 
 (* an unfinished variable in a register is bound for a register of the same group (after phase 1) *)
 Lemma active_shape vars emit i v g c : finv' vars emit -> stk_done vars -> nth_error vars i = Some v ->
@@ -500,7 +500,7 @@ Variable st0 : state.
 Hypothesis Hv0 : forall i v0, nth_error vs0 i = Some v0 -> v0_ok a wgp wvec v0.
 Hypothesis Hout0 : fout_inj vs0.
 
-Local Notation finv' := (finv wgp wvec vs0 st0).
+Local Notation finv' := (finv a wgp wvec vs0 st0).
 
 (* unfinished, in a register of a group without an exchange instruction *)
 Definition scrb (v : fvar) : bool :=
@@ -879,3 +879,38 @@ Example ex_x86_valid :
   | _ => false
   end = true.
 Proof. vm_compute. reflexivity. Qed.
+
+(* decidable form of the side condition of fsolve_stores_disjoint, and the theorem applied to the mixed example *)
+Definition slots_disjointb (vs : list fvar) : bool :=
+  forallb (fun u => forallb (fun v =>
+    match slot_of u, slot_of v with
+    | Some (o1, z1), Some (o2, z2) => (o1 =? o2) || (o1 + z1 <=? o2) || (o2 + z2 <=? o1)
+    | _, _ => true
+    end) vs) vs.
+
+Lemma slots_disjointb_sound vs : slots_disjointb vs = true -> slots_disjoint vs.
+Proof.
+  unfold slots_disjointb, slots_disjoint. intros H u v o1 z1 o2 z2 Hu Hv Su Sv Hne.
+  rewrite forallb_forall in H. specialize (H u Hu). rewrite forallb_forall in H. specialize (H v Hv).
+  rewrite Su, Sv in H. apply orb_prop in H. destruct H as [H | H].
+  - apply orb_prop in H. destruct H as [H | H].
+    + apply Z.eqb_eq in H. contradiction.
+    + left. apply Z.leb_le. assumption.
+  - right. apply Z.leb_le. assumption.
+Qed.
+
+Example ex_mixed_stores_disjoint :
+  slots_disjointb ex_mixed = true /\
+  match fsolve FX64 ex_wgp ex_wvec ex_mixed with
+  | SOk ms => List.length (filter (fun i => match i with IExt (Mem _ _) _ _ _ _ _ => true | _ => false end) ms) = 2%nat
+  | _ => False
+  end.
+Proof. vm_compute. split; reflexivity. Qed.
+
+(* the 32-bit x86 exception of fsolve_stores_exact is real: a 1-byte destination stored 32 bits wide *)
+Example ex_x86_wide_byte_store :
+  match fsolve FX86 [1;2;6;7] [0;1] ex_x86 with
+  | SOk ms => In (IExt (Mem 1 0) (Reg 0 6) EZ 32 32 32) ms
+  | _ => False
+  end /\ nth_error ex_x86 0 = Some (finit (Mem 0 4) 1 true (Mem 1 0) 1 true true).
+Proof. vm_compute. split; [right; left; reflexivity | reflexivity]. Qed.
